@@ -6,7 +6,7 @@ From MV Require Import Base RotLemmas Record RecordLemmas Regex RegexLemmas Typi
      Pipeline StrandLemmas Circle Annot Py PyObj SrcEquivRegex SrcEquivRecord SrcEquivTyping.
 From MV.Gen Require Import Src.
 From Coq Require Import String.
-Open Scope Z_scope.
+Local Open Scope Z_scope.
 
 (* ---------- keys: upper-cased overhangs vs case-folded codes ---------------- *)
 
@@ -503,4 +503,241 @@ Proof.
       rewrite Pp, Pa, P3; [reflexivity|].
     rewrite (dict_rel_ids d2 (t0 :: rest0) Hrel2). reflexivity.
   - destruct WL as (k & Ew & Hk). rewrite Ew. cbn [bind py_try finish outcome_of forget_used]. now rewrite Hk.
+Qed.
+
+(* ======================================================================================== *)
+(* The same refinement at the level of records: the feature table of the product              *)
+(* ======================================================================================== *)
+
+From MV Require Import AnnotPipeline TotalLemmas.
+
+(* the fragment an element contributes, as the annotation model defines it *)
+Definition frag_rec (e : entity) : record :=
+  match elem_fragment (ent_cls e) (pr_id (ent_record e)) (to_record (ent_record e)) with
+  | Some f => f
+  | None => R [] [] []
+  end.
+
+Lemma cut_span_bound c s m a b : typing c s true = Valid m -> cut_span m = Some (a, b) ->
+  (b - a <= List.length s)%nat.
+Proof.
+  intros Ht Hc. apply typing_valid_search in Ht.
+  destruct (search_window _ _ _ _ _ _ Ht) as (_ & Hw & _ & Hsp).
+  unfold cut_span in Hc.
+  destruct (span m 1) as [[a1 b1]|] eqn:S1; [|discriminate].
+  destruct (span m 2) as [[a2 b2]|] eqn:S2; [|discriminate]. inversion Hc; subst.
+  cbn [span] in S1, S2. apply find_span_in in S1, S2.
+  rewrite Forall_forall in Hsp. pose proof (Hsp _ S1) as H1. pose proof (Hsp _ S2) as H2.
+  unfold span_ok in *. cbn in *. lia.
+Qed.
+
+Lemma ent_target_record e t : good_ent e -> tm_of e = Some t ->
+  exists r3, ent_target_sequence e = Ok r3 /\ pr_kind r3 = KSeqRecord /\ same_sf (to_record r3) (frag_rec e).
+Proof.
+  intros G T. destruct (tm_valid e t T) as [m Hm]. pose proof (good_circ e G) as Hc.
+  destruct (ge_groups e G m Hm) as (a1 & b1 & a2 & b2 & a3 & b3 & S1 & S2 & S3 & Hle).
+  assert (Hcs : cut_span m = Some (a1, b2)) by (unfold cut_span; now rewrite S1, S2).
+  pose proof (cut_span_bound _ _ _ _ _ Hm Hcs) as HL.
+  unfold frag_rec, elem_fragment. cbn [to_record rseq]. unfold ent_seq_w in Hm. rewrite Hm, Hcs.
+  unfold ent_target_sequence.
+  assert (Hm' : typing (ent_cls e) (pr_seq (ent_record e)) (ent_circ e) = Valid m) by now rewrite Hc.
+  destruct (crole (ent_cls e)) eqn:Hr.
+  - exact (module_target_record e (ge_fit e G) (ge_circ e G) (ge_tracks e G) m a1 b2 Hm' Hcs Hle HL).
+  - exact (vector_target_record e (ge_fit e G) (ge_circ e G) (ge_tracks e G) m a1 b2 Hm' Hcs Hle HL).
+Qed.
+
+Lemma same_sf_concat x y x' y' : same_sf x x' -> same_sf y y' -> same_sf (concat_record x y) (concat_record x' y').
+Proof. intros [H1 H2] [H3 H4]. unfold same_sf, concat_record. cbn. now rewrite H1, H2, H3, H4. Qed.
+
+Lemma addm_seqrecords_rec x y : pr_kind x = KSeqRecord -> pr_kind y = KSeqRecord ->
+  exists r, py_addm x y = Ok r /\ pr_kind r = KSeqRecord /\ pr_annotations r = None
+            /\ to_record r = concat_record (to_record x) (to_record y).
+Proof.
+  unfold py_addm, PyAddM_rec, is_CircularRecord, bio_add, is_SeqRecord.
+  destruct x as [kx sx ix fx ax lx], y as [ky sy iy fy ay ly]. cbn. intros -> ->.
+  eexists; (split; [reflexivity|]); cbn; auto.
+Qed.
+
+Lemma product_snoc frs f : product (frs ++ [f]) = concat_record (product frs) f.
+Proof. unfold product. now rewrite fold_left_app. Qed.
+
+Lemma dict_get_in {V} keq (d : list (pyrecord * V)) k v : dict_get keq d k = Some v -> In v (dict_values d).
+Proof.
+  induction d as [|[k0 v0] d IH]; cbn; [discriminate|].
+  destruct (keq k0 k); [intros H; inversion H; now left|intros H; right; now apply IH].
+Qed.
+
+Lemma dict_remove_incl {V} keq (d : list (pyrecord * V)) k : incl (dict_values (dict_remove keq d k)) (dict_values d).
+Proof.
+  induction d as [|[k0 v0] d IH]; cbn; [apply incl_refl|].
+  destruct (keq k0 k); cbn.
+  - apply incl_tl, incl_refl.
+  - intros x [<-|Hx]; [now left|right; now apply IH].
+Qed.
+
+Lemma dict_pop_in {V} keq (d : list (pyrecord * V)) k v d' : dict_pop keq d k = Ok (v, d') ->
+  In v (dict_values d) /\ incl (dict_values d') (dict_values d).
+Proof.
+  unfold dict_pop. destruct (dict_get keq d k) eqn:E; [|discriminate].
+  intros H. inversion H; subst. split; [eapply dict_get_in; eassumption|apply dict_remove_incl].
+Qed.
+
+(* the walk, with the entities it consumes *)
+Lemma walk_loop_rec vector rb b : ent_overhang_start vector = Ok rb -> b = okey (pr_seq rb) ->
+  forall f d mp asm next used usedE,
+  dict_rel d mp -> upper_word (pr_seq next) -> pr_kind asm = KSeqRecord ->
+  Forall2 (fun e t => tm_of e = Some t) usedE used ->
+  same_sf (to_record asm) (product (map frag_rec usedE)) ->
+  dwalk f b (okey (pr_seq next)) mp used <> WFuel ->
+  match dwalk f b (okey (pr_seq next)) mp used with
+  | WChain u rest => exists d' asm' next' uE,
+      py_while0 (S f) (d, asm, next) (walk_cond vector) walk_body = Ok (d', asm', next')
+      /\ dict_rel d' rest /\ pr_kind asm' = KSeqRecord
+      /\ Forall2 (fun e t => tm_of e = Some t) uE u
+      /\ same_sf (to_record asm') (product (map frag_rec uE))
+      /\ incl uE (usedE ++ dict_values d)
+  | _ => True
+  end.
+Proof.
+  intros Eb Hb. induction f as [|f IH]; intros d mp asm next used usedE Hrel Un La HF Hsf Hnf.
+  - cbn [walk] in *. rewrite py_while0_S. cbn [walk_cond]. rewrite Eb. cbn [bind].
+    assert (Hc : py_eq next (seq_upper rb) = codes_eqb (okey (pr_seq next)) b).
+    { unfold py_eq, PyEq_rec. cbn [seq_upper mk_Seq pr_seq].
+      rewrite (word_eqb_upper _ _ Un (upper_fold _)), okey_fold. now subst b. }
+    rewrite Hc. destruct (codes_eqb (okey (pr_seq next)) b); [|contradiction].
+    cbn [negb]. exists d, asm, next, usedE. split; [reflexivity|]. split; [exact Hrel|]. split; [exact La|]. split; [exact HF|]. split; [exact Hsf|]. apply incl_appl, incl_refl.
+  - cbn [walk] in *. rewrite py_while0_S. cbn [walk_cond]. rewrite Eb. cbn [bind].
+    assert (Hc : py_eq next (seq_upper rb) = codes_eqb (okey (pr_seq next)) b).
+    { unfold py_eq, PyEq_rec. cbn [seq_upper mk_Seq pr_seq].
+      rewrite (word_eqb_upper _ _ Un (upper_fold _)), okey_fold. now subst b. }
+    rewrite Hc. destruct (codes_eqb (okey (pr_seq next)) b); cbn [negb].
+    + exists d, asm, next, usedE. split; [reflexivity|]. split; [exact Hrel|]. split; [exact La|]. split; [exact HF|]. split; [exact Hsf|]. apply incl_appl, incl_refl.
+    + pose proof (dict_pop_rel d mp next Hrel Un) as Hp.
+      destruct (dpop (okey (pr_seq next)) mp) as [[t rest]|]; [|exact I].
+      destruct Hp as (e & Ep & Ge & Te & Hr).
+      destruct (valid_all e t Ge Te) as (r2 & r3 & E2 & Kd & E3 & P3 & L3).
+      destruct (ent_target_record e t Ge Te) as (r3' & E3' & _ & Hsf3).
+      assert (r3' = r3) by congruence. subst r3'.
+      destruct (addm_seqrecords_rec asm r3 La L3) as (asm' & Ea & La' & _ & Hrec').
+      assert (Hbody : walk_body (d, asm, next) = Ok (dict_remove seq_keq d next, asm', seq_upper r2)).
+      { unfold walk_body. rewrite Ep. cbn [bind]. rewrite E3. cbn [bind]. rewrite Ea. cbn [bind].
+        rewrite E2. reflexivity. }
+      rewrite Hbody.
+      assert (Un' : upper_word (pr_seq (seq_upper r2))) by (cbn; apply upper_fold).
+      assert (Kn : okey (pr_seq (seq_upper r2)) = mdown t) by (cbn; now rewrite okey_fold).
+      destruct (dict_pop_in _ _ _ _ _ Ep) as [Hin Hincl].
+      specialize (IH (dict_remove seq_keq d next) rest asm' (seq_upper r2) (used ++ [t]) (usedE ++ [e]) Hr Un' La').
+      rewrite Kn in IH.
+      assert (HF' : Forall2 (fun e t => tm_of e = Some t) (usedE ++ [e]) (used ++ [t]))
+        by (apply Forall2_app; [exact HF|]; constructor; [exact Te|constructor]).
+      assert (Hsf' : same_sf (to_record asm') (product (map frag_rec (usedE ++ [e]))))
+        by (rewrite Hrec', map_app; cbn [map]; rewrite product_snoc; now apply same_sf_concat).
+      specialize (IH HF' Hsf' Hnf).
+      destruct (dwalk f b (mdown t) rest (used ++ [t])) as [u rest'|o|]; try exact I.
+      destruct IH as (d' & asm2 & next' & uE & Ew & Hr' & Ka & HF2 & Hsf2 & Hi).
+      exists d', asm2, next', uE. split; [exact Ew|]. split; [exact Hr'|]. split; [exact Ka|].
+      split; [exact HF2|]. split; [exact Hsf2|].
+      intros x Hx. specialize (Hi x Hx). apply in_app_or in Hi. destruct Hi as [Hi|Hi].
+      { apply in_app_or in Hi. destruct Hi as [Hi|[<-|[]]]; apply in_or_app; [now left|now right]. }
+      apply in_or_app. right. now apply Hincl.
+Qed.
+
+Lemma build_loop_incl : forall ms d d', py_for0 ms d map_body = Ok d' -> incl (dict_values d') (dict_values d ++ ms).
+Proof.
+  induction ms as [|e ms IH]; intros d d' H; cbn [py_for0] in H.
+  - inversion H; subst. rewrite app_nil_r. apply incl_refl.
+  - destruct (map_body e d) as [st'|] eqn:Hb; [|discriminate].
+    assert (Hst : incl (dict_values st') (dict_values d ++ [e])).
+    { unfold map_body in Hb. destruct (ent_overhang_start e) as [r|]; [|discriminate]. cbn [bind] in Hb.
+      unfold dict_setdefault in Hb. destruct (dict_get seq_keq d (seq_upper r)) as [e0|].
+      - destruct (negb (ent_is e0 e)).
+        + destruct (ent_overhang_start e0); discriminate.
+        + inversion Hb; subst. apply incl_appl, incl_refl.
+      - destruct (negb (ent_is e e)); [destruct (ent_overhang_start e); discriminate|].
+        inversion Hb; subst. unfold dict_values. rewrite map_app. cbn. apply incl_refl. }
+    apply IH in H. intros x Hx. specialize (H x Hx). apply in_app_or in H. destruct H as [H|H].
+    + specialize (Hst x H). apply in_app_or in Hst. destruct Hst as [Hs|[<-|[]]]; apply in_or_app; [now left|right; now left].
+    + apply in_or_app. right. now right.
+Qed.
+
+(* THE PRODUCT RECORD. Whenever the model says a product is returned, the translated
+   vector.assemble(...) returns a record whose sequence AND feature table are those of the
+   annotation model: the fragments of the consumed modules, in chain order, then the vector's,
+   concatenated (Annot.product) — each fragment the rotate-slice image of its plasmid's feature
+   table plus the generated source feature naming it (Annot.fragment). The consumed modules are
+   arguments of the call and their identities are the model's chain. *)
+Theorem vector_assemble_records vector modules :
+  good_ent vector -> Forall good_ent modules ->
+  map ent_id modules = seq 0 (List.length modules) ->
+  match assemble_raw (ent_cls vector) (ent_seq_w vector) (map raw_of modules) with
+  | Product w used unused =>
+    exists prod ws usedE,
+      vector_assemble (S (S (List.length modules))) vector modules = Ok (prod, ws)
+      /\ map ent_id usedE = used /\ incl usedE modules
+      /\ pr_kind prod = KCircularRecord
+      /\ same_sf (to_record prod) (product (map frag_rec (usedE ++ [vector])))
+  | _ => True
+  end.
+Proof.
+  intros Gv Gm Hids. unfold vector_assemble, assemble_raw, typed_vector.
+  pose proof (ent_queries vector Gv) as Q.
+  unfold AssemblyManager_init.
+  destruct (typing (ent_cls vector) (ent_seq_w vector) true) as [mv| |] eqn:Htv.
+  2,3: assert (Hn : overhang_start (ent_cls vector) (ent_seq_w vector) true = None)
+         by (unfold overhang_start, with_match; now rewrite Htv); rewrite Hn; exact I.
+  destruct Q as (r1 & r2 & r3 & up & down & fr & Hu & Hd & Hf & E1 & P1 & E2 & P2 & E3 & P3 & K3).
+  rewrite Hu, Hd, Hf, E1. cbn [bind]. rewrite E2. cbn [bind vup vdown].
+  assert (Hc : py_eq (seq_upper r1) (seq_upper r2) = codes_eqb (okey up) (okey down)).
+  { unfold py_eq, PyEq_rec. cbn [seq_upper mk_Seq pr_seq]. now rewrite word_eqb_fold, P1, P2. }
+  rewrite Hc. destruct (codes_eqb (okey up) (okey down)) eqn:Hvo; [exact I|].
+  cbn [bind]. unfold py_addm at 1, PyAddM_list. cbn [bind].
+  unfold AssemblyManager_generate_modules_map. cbn [am_modules].
+  change (py_for0 modules [] _) with (py_for0 modules [] map_body).
+  destruct (type_prefix (map raw_of modules) 0) as [pre complete] eqn:Htp.
+  pose proof (build_loop modules 0 [] [] pre complete (Forall2_nil _) Gm Hids
+                (fun t (H : In t []) => match H with end) Htp) as BL.
+  destruct (dbuild_map pre []) as [mp'|[a b]] eqn:Hbm; [|exact I].
+  destruct complete; [|exact I].
+  destruct BL as (d' & Ed & Hrel). rewrite Ed. cbn [bind].
+  pose proof (build_loop_incl modules [] d' Ed) as Hinc. cbn [dict_values map app] in Hinc.
+  destruct (build_map_inl codes_eqb codes_eqb_spec pre [] mp' Hbm) as [Hmp Hnd].
+  specialize (Hnd (NoDup_nil _)). cbn [app] in Hmp, Hnd. subst mp'.
+  change (py_for0 (dict_keys d') tt _) with (py_for0 (map fst d') tt (rc_body d')).
+  rewrite (rc_loop d' pre Hrel Hnd d' pre Hrel (fun t H => H)).
+  unfold dna_assemble, assemble, assemble_with. cbn [vup vdown]. rewrite Hvo, Hbm.
+  destruct (drc_clash pre pre) as [[a b]|]; [exact I|].
+  cbn [bind]. unfold AssemblyManager_generate_assembly. cbn [am_vector].
+  rewrite E2. cbn [bind].
+  change (py_while0 (S (S (List.length modules))) ?st _ _)
+    with (py_while0 (S (S (List.length modules))) st (walk_cond vector) walk_body).
+  assert (Hlen : List.length pre = List.length modules)
+    by (rewrite (type_prefix_length _ _ _ Htp); apply map_length).
+  rewrite Hlen.
+  assert (Un : upper_word (pr_seq (seq_upper r2))) by (cbn; apply upper_fold).
+  assert (Kn : okey (pr_seq (seq_upper r2)) = okey down) by (cbn; now rewrite okey_fold, P2).
+  pose proof (walk_loop_rec vector r1 (okey up) E1 (f_equal okey (eq_sym P1))
+                (S (List.length modules)) d' pre (mk_SeqRecord1 (mk_Seq [])) (seq_upper r2) [] []
+                Hrel Un eq_refl (Forall2_nil _) (conj eq_refl eq_refl)) as WL.
+  rewrite Kn in WL.
+  assert (Hnf : dwalk (S (List.length modules)) (okey up) (okey down) pre [] <> WFuel)
+    by (apply (walk_fuel codes_eqb codes_eqb_spec); lia).
+  specialize (WL Hnf).
+  destruct (dwalk (S (List.length modules)) (okey up) (okey down) pre []) as [u rest|o|]; try exact I.
+  destruct WL as (d2 & asm' & next' & uE & Ew & Hrel2 & Ka & HF & Hsf & Hi).
+  rewrite Ew. cbn [bind py_try finish].
+  destruct (ent_target_record vector (TM (ent_id vector) (okey up) (okey down) fr) Gv) as (r3' & E3' & _ & Hsf3).
+  { unfold tm_of, typed_module. now rewrite Hu, Hd, Hf. }
+  assert (r3' = r3) by congruence. subst r3'.
+  destruct (addm_seqrecords_rec asm' r3 Ka K3) as (prod & Ep & Kp & Ap & Hrecp).
+  assert (Hids_u : map ent_id uE = map mid u).
+  { clear -HF. induction HF as [|e t uE u H0 H IH]; cbn; [reflexivity|]. now rewrite IH, (tm_id _ _ H0). }
+  assert (Hprod : same_sf (to_record prod) (product (map frag_rec (uE ++ [vector]))))
+    by (rewrite Hrecp, map_app; cbn [map]; rewrite product_snoc; now apply same_sf_concat).
+  assert (HuE : incl uE modules) by (intros x Hx; specialize (Hi x Hx); cbn [app] in Hi; now apply Hinc).
+  set (W := if dict_nonempty d2 then _ else _).
+  assert (HW : exists ws, W = Ok ws) by (unfold W; destruct (dict_nonempty d2); eauto).
+  destruct HW as [ws HW]. rewrite HW. cbn [bind]. rewrite E3. cbn [bind]. rewrite Ep. cbn [bind].
+  unfold bio_CircularRecord_of. rewrite Ap. cbn [bind].
+  eexists _, ws, uE. split; [reflexivity|]. split; [exact Hids_u|]. split; [exact HuE|].
+  split; [reflexivity|]. exact Hprod.
 Qed.
